@@ -265,6 +265,9 @@ def gen_num(g: G, sch: Sch, t: str, depth: int, must_col=False):
         if a[0] == "call" and g.boolean(g.cfg.get("float_divide_prob", 0.5)) and sch.cols and "float_divide" not in g.closed:
             # the explicit float division operator with a compound numerator (dialects format it on their own)
             fa = a if S.expr_type(a, sch)[0] == "float" else ["call", "*", [a, ["lit", 1.0]]]
+            if g.boolean():
+                # an inline sum / difference as numerator: (a + b) %/% c is not a + b %/% c
+                fa = ["call", g.pick(["+", "-"]), [fa, ["lit", g.pick([1.5, 2.0, -0.5, 4.0])]]]
             return ["call", "%/%", [fa, ["lit", g.pick(DIVISORS)]]]
         return ["call", "/", [a, ["lit", g.pick(DIVISORS)]]]
     if k == "floorceil":
